@@ -114,6 +114,62 @@ class FakeFile:
         self.close()
 
 
+class FakeTextFile:
+    """text layer over a binary FakeFile (like io.TextIOWrapper over a BufferedWriter): characters
+    written here are pending in the text layer until flush()/close() hands them to `.buffer`"""
+
+    def __init__(self, fs, ino):
+        self.fs = fs
+        self.buffer = FakeFile(fs, ino, False)
+        self.pending = ''
+        self.closed = False
+        self.encoding = 'utf-8'
+
+    def _push(self):
+        if self.pending:
+            data = self.pending.encode('utf-8')
+            self.pending = ''
+            self.buffer.buf = self.buffer.buf + data
+            if len(self.buffer.buf) > self.fs.buflimit:
+                self.buffer._drain()
+
+    def write(self, data):
+        if self.closed:
+            raise ValueError('I/O operation on closed file')
+        if not isinstance(data, str):
+            raise TypeError('write() argument must be str')
+        self.fs.tick('write')
+        self.buffer.ino.log.append('write')
+        self.pending = self.pending + data
+        if len(self.pending) > self.fs.buflimit:
+            self._push()
+        return len(data)
+
+    def flush(self):
+        if self.closed:
+            raise ValueError('I/O operation on closed file')
+        self._push()
+        self.buffer.flush()
+
+    def fileno(self):
+        return self.buffer.fileno()
+
+    def close(self):
+        if self.closed:
+            return
+        self.closed = True
+        if self.pending:
+            self.buffer.ino.log.append('write')      # late hand-over of pending text counts as a write event
+        self._push()
+        self.buffer.close()
+
+    def __enter__(self):
+        return self
+
+    def __exit__(self, *a):
+        self.close()
+
+
 class FakePath:
     def __init__(self, fs):
         self.fs = fs
@@ -176,7 +232,9 @@ class FakeOS:
 
     def fdopen(self, fd, mode='r', buffering=-1):
         self.fs.tick('fdopen')
-        return FakeFile(self.fs, fd, 'b' not in mode)
+        if 'b' not in mode:
+            return FakeTextFile(self.fs, fd)
+        return FakeFile(self.fs, fd, False)
 
     def chmod(self, p, mode):
         self.fs.tick('chmod')
@@ -213,6 +271,8 @@ class FakeOS:
 
     def fsync(self, f):
         self.fs.tick('fsync')
+        if isinstance(f, FakeTextFile):
+            f = f.buffer
         if isinstance(f, FakeFile):
             f.ino.durable = len(f.ino.kernel)
             f.ino.log.append('fsync')
